@@ -96,6 +96,40 @@ def _canon(vt, x):
     return json.dumps({k: v.tobytes().hex() for k, v in sorted(x.asnumpy().items())})
 
 
+# call kinds of the communicator methods (coq/C23/ModelProto.v): (class, kind)
+KIND = {"send": (3, 0), "Send": (3, 1), "recv": (2, 0), "Recv": (2, 1),
+        "bcast": (4, 0), "Bcast": (4, 1), "allgather": (4, 2), "allreduce": (4, 3)}
+
+
+class KindComm:
+    """Proxy around a fake communicator that records WHICH method allreduce_sum/_send/_recv/_bcast
+    call (pickled send/recv vs raw-buffer Send/Recv, bcast/Bcast/allgather/allreduce), in call order."""
+
+    def __init__(self, comm, rec):
+        self._c = comm
+        self._rec = rec
+
+    def __getattr__(self, name):
+        f = getattr(self._c, name)
+        if name not in KIND:
+            return f
+
+        def g(*a, **k):
+            self._rec.append(KIND[name])
+            return f(*a, **k)
+        return g
+
+
+def kind_obs(o):
+    """Per-rank [((class, peer), kind)] or None if the two recordings do not line up."""
+    out = []
+    for l, ks in zip(o["logs"], o["kinds"]):
+        if len(l) != len(ks) or any(a[0] != k[0] for a, k in zip(l, ks)):
+            return None
+        out.append([(a[0], a[1], k[1]) for a, k in zip(l, ks)])
+    return out
+
+
 def run_case(part, vt, seed, timeout=60.0):   # generous: a loaded machine must not look like a deadlock
     """Run the real allreduce_sum for one partition; returns a dict of observations."""
     from nifty.cl.utilities import allreduce_sum
@@ -107,12 +141,15 @@ def run_case(part, vt, seed, timeout=60.0):   # generous: a loaded machine must 
     # the tree (already compared with the model) evaluated on the numeric values, left to right
     tree_val = canon(vt, ev_tree(ref_tree, vals))
 
+    kinds = [[] for _ in part]
+
     def fn(comm, r):
-        return allreduce_sum(list(vals[offs[r]:offs[r + 1]]), comm)
+        return allreduce_sum(list(vals[offs[r]:offs[r + 1]]), KindComm(comm, kinds[r]))
 
     res, err, logs = fakecomm.run_threads(len(part), fn, timeout=timeout, jitter_seed=seed)
     out = {"part": list(map(int, part)), "vtype": vt, "seed": int(seed), "ref_tree": ref_tree,
-           "errors": err, "logs": [[list(a) for a in l] for l in logs], "ref": ref, "tree_val": tree_val}
+           "errors": err, "logs": [[list(a) for a in l] for l in logs], "ref": ref, "tree_val": tree_val,
+           "kinds": [[list(k) for k in ks] for ks in kinds]}
     out["results"] = [None if e is not None else canon(vt, x) for x, e in zip(res, err)]
     out["tree"] = res[0].t if (vt == "other" and err[0] is None and isinstance(res[0], Sym)) else None
     return out
@@ -159,7 +196,11 @@ def gen_cases(ctx):
     return cases
 
 
-HEADER = "From Coq Require Import List Arith. Import ListNotations.\nRequire Import NV.C23.Model.\n"
+HEADER = "From Coq Require Import List Arith. Import ListNotations.\nRequire Import NV.C23.Model NV.C23.ModelProto.\n"
+
+
+def kobs_coq(ko):
+    return C.clist([C.clist(["((%d, %d), %d)" % t for t in l]) for l in ko])
 
 
 def obs_coq(logs):
@@ -205,22 +246,27 @@ class C23(C.Check):
             part = C.clist([str(int(x)) for x in p])
             if any(e is not None for e in o["errors"]) or (vt == "other" and o["tree"] is None):
                 checks.append("false")      # the model never blocks, raises or returns a non-sum
+            elif kind_obs(o) is None:
+                checks.append("false")      # call kinds and message log of a task do not line up
             elif vt == "other":
-                checks.append("case_ok %s 1 2 %s %s" % (part, tm(o["tree"]), obs_coq(o["logs"])))
+                checks.append("andb (case_ok %s 1 2 %s %s) (kind_ok %s TOther %s)"
+                              % (part, tm(o["tree"]), obs_coq(o["logs"]), part, kobs_coq(kind_obs(o))))
             else:
-                checks.append("comm_ok %s %s %s" % (part, vtype_coq(vt, sum(p)), obs_coq(o["logs"])))
+                checks.append("andb (comm_ok %s %s %s) (kind_ok %s %s %s)"
+                              % (part, vtype_coq(vt, sum(p)), obs_coq(o["logs"]),
+                                 part, vtype_coq(vt, sum(p)), kobs_coq(kind_obs(o))))
         bad = C.eval_cases(self.prop, "corr", HEADER, checks)
         for i in bad:
             o = self.obs[i]
             res.add_broken("correspondence", "allreduce_sum vs coq/C23/Model.v",
                            {"part": o["part"], "vtype": o["vtype"], "seed": o["seed"], "logs": o["logs"],
-                            "errors": o["errors"], "tree": o["tree"]})
+                            "errors": o["errors"], "tree": o["tree"], "kinds": o["kinds"]})
             if len(res.broken) > 3:
                 break
         distinct = len({(tuple(o["part"]), o["vtype"]) for o in self.obs if sum(o["part"]) > 1 and len(o["part"]) > 1})
         res.coverage.update({
             "evaluations": len(cases), "distinct_nontrivial": distinct,
-            "rule": "ordered partitions of n summands over t tasks (all for n<=%d,t<=%d plus random n<=40,t<=6), payload types other/ndarray/Field/MultiField; non-trivial = more than one task and more than one summand; distinct by (partition, type)" % ((6, 3) if ctx.quick else (8, 4)),
+            "rule": "ordered partitions of n summands over t tasks (all for n<=%d,t<=%d plus random n<=40,t<=6), payload types other/ndarray/Field/MultiField; per-rank message sequences, call kinds (send/Send/recv/Recv/bcast/Bcast/allgather/allreduce) and result tree compared; non-trivial = more than one task and more than one summand; distinct by (partition, type)" % ((6, 3) if ctx.quick else (8, 4)),
             "samples": [{"part": o["part"], "vtype": o["vtype"], "logs": o["logs"]} for o in self.obs[5:8]],
             "input_distribution": {vt: sum(1 for o in self.obs if o["vtype"] == vt) for vt in sorted({o["vtype"] for o in self.obs})},
             "disagreements": len(bad),
